@@ -26,6 +26,8 @@ type Fn struct {
 
 	defs  map[types.Object][]defSite // lazily built: definitions of locals (shared with parent chain root)
 	graph *Graph
+	lits     []*Fn
+	litsDone bool
 	store map[types.Object]ast.Expr // transient: path store used by CanonSt
 }
 
@@ -85,7 +87,18 @@ func declName(d *ast.FuncDecl) string {
 }
 
 // Funcs returns every declared function of the package with a body.
+var funcsCache = map[*packages.Package][]*Fn{}
+
 func Funcs(pkg *packages.Package) []*Fn {
+	if fs, ok := funcsCache[pkg]; ok {
+		return fs
+	}
+	out := funcsUncached(pkg)
+	funcsCache[pkg] = out
+	return out
+}
+
+func funcsUncached(pkg *packages.Package) []*Fn {
 	var out []*Fn
 	for _, f := range pkg.Syntax {
 		for _, d := range f.Decls {
@@ -129,13 +142,9 @@ func FnOf(pkgs map[string]*packages.Package, obj *types.Func) *Fn {
 	if pk == nil || len(pk.Syntax) == 0 {
 		return nil
 	}
-	for _, f := range pk.Syntax {
-		if f.Pos() <= obj.Pos() && obj.Pos() < f.End() {
-			for _, d := range f.Decls {
-				if fd, ok := d.(*ast.FuncDecl); ok && fd.Name.Pos() == obj.Pos() && fd.Body != nil {
-					return &Fn{Pkg: pk, Obj: obj, Decl: fd, Name: declName(fd)}
-				}
-			}
+	for _, fn := range Funcs(pk) {
+		if fn.Decl != nil && fn.Decl.Name.Pos() == obj.Pos() {
+			return fn
 		}
 	}
 	return nil
@@ -143,6 +152,15 @@ func FnOf(pkgs map[string]*packages.Package, obj *types.Func) *Fn {
 
 // Lits returns the function literals directly nested in f (not literals inside literals), in source order.
 func (f *Fn) Lits() []*Fn {
+	if f.litsDone {
+		return f.lits
+	}
+	f.lits = f.litsUncached()
+	f.litsDone = true
+	return f.lits
+}
+
+func (f *Fn) litsUncached() []*Fn {
 	var out []*Fn
 	n := 0
 	var visit func(node ast.Node) bool
@@ -411,3 +429,19 @@ func EnclosingCase(root ast.Node, n ast.Node) *ast.CaseClause {
 	})
 	return best
 }
+
+// LitFnAt returns the innermost function (f itself or one of its nested literals) containing node n.
+func (f *Fn) LitFnAt(n ast.Node) *Fn {
+	best := f
+	for _, l := range f.AllLits() {
+		if l.Lit.Pos() <= n.Pos() && n.End() <= l.Lit.End() {
+			if best == f || (best.Lit != nil && l.Lit.Pos() >= best.Lit.Pos() && l.Lit.End() <= best.Lit.End()) {
+				best = l
+			}
+		}
+	}
+	return best
+}
+
+// LitFnOf is LitFn on the root of f.
+func (f *Fn) LitFnOf(lit *ast.FuncLit) *Fn { return f.Root().LitFn(lit) }
